@@ -369,6 +369,83 @@ func seedfixC33(c *Ctx, un string, u *Unit, key ssa.Value, at string) {
 			}
 		}
 	}
+	// R-KEY-ENTROPY: the random part is drawn from the system source by a call that fills its
+	// buffer completely (crypto/rand.Read, io.ReadFull, uuid.New/NewRandom); no pooled or
+	// seeded generator, no single Read whose count is ignored.
+	var ent []string
+	for _, o := range os {
+		if o.Kind != "call" {
+			continue
+		}
+		switch {
+		case strings.Contains(o.Desc, "sync.Pool).Get"), strings.Contains(o.Desc, "math/rand"), strings.Contains(o.Desc, "NewRandomFromReader"):
+			ent = append(ent, o.Desc)
+		case strings.Contains(o.Desc, "io.Reader.Read"), strings.Contains(o.Desc, ".Reader).Read"):
+			ent = append(ent, o.Desc+" (a single Read may fill only part of the buffer)")
+		}
+	}
+	for _, f := range u.SrcFuncs() {
+		// a Read on crypto/rand.Reader whose buffer becomes the key without io.ReadFull
+		if sn := shortName(f); sn != "generateUUID" && sn != "newObjectID" {
+			continue
+		}
+		for _, cs := range u.Calls(f, nil) {
+			if cs.Common().IsInvoke() && cs.Common().Method.Name() == "Read" {
+				ent = append(ent, shortName(f)+" reads its entropy with one "+cs.Callee+" call (short reads leave the rest of the id zero)")
+			}
+			if strings.Contains(cs.Callee, "math/rand") || strings.Contains(cs.Callee, "sync.Pool).Get") {
+				ent = append(ent, shortName(f)+" calls "+cs.Callee)
+			}
+		}
+	}
+	sort.Strings(ent)
+	r.Check(len(ent) == 0, "R-KEY-FULL-READ", un+"|Upload key", at, "the key's random part comes from a full read of the system entropy source", "the object key's random part is drawn through "+strings.Join(ent, "; ")+": distinct uploads can be handed the same id")
+	// R-KEY-WHOLE: the key handed to the store is the whole prefix+id string, never a slice of it.
+	sliced := ""
+	seenV := map[ssa.Value]bool{}
+	var walkK func(v ssa.Value, d int)
+	walkK = func(v ssa.Value, d int) {
+		if v == nil || d > 12 || seenV[v] {
+			return
+		}
+		seenV[v] = true
+		switch y := v.(type) {
+		case *ssa.Slice:
+			if bt, ok := y.X.Type().Underlying().(*types.Basic); ok && bt.Info()&types.IsString != 0 {
+				sliced = u.Describe(y)
+			}
+			walkK(y.X, d+1)
+		case *ssa.BinOp:
+			walkK(y.X, d+1)
+			walkK(y.Y, d+1)
+		case *ssa.Phi:
+			for _, e := range y.Edges {
+				walkK(e, d+1)
+			}
+		case *ssa.UnOp:
+			if al, ok := y.X.(*ssa.Alloc); ok {
+				for _, ref := range *al.Referrers() {
+					if st, isSt := ref.(*ssa.Store); isSt && st.Addr == ssa.Value(al) {
+						walkK(st.Val, d+1)
+					}
+				}
+			}
+			walkK(y.X, d+1)
+		case *ssa.Call:
+			// aws.String(key) and the like
+			if len(y.Call.Args) == 1 {
+				walkK(y.Call.Args[0], d+1)
+			}
+		case *ssa.MakeInterface:
+			walkK(y.X, d+1)
+		case *ssa.ChangeType:
+			walkK(y.X, d+1)
+		case *ssa.Convert:
+			walkK(y.X, d+1)
+		}
+	}
+	walkK(key, 0)
+	r.Check(sliced == "", "R-KEY-WHOLE", un+"|Upload key", at, "the key is the whole prefix+id string", "the object key is cut ("+sliced+"): with a long prefix the random id is cut away and every upload lands on the same key")
 	sort.Strings(bad)
 	var dd []string
 	for i, b := range bad {
